@@ -134,14 +134,17 @@ def st_internal(draw):
 
 @st.composite
 def st_step(draw, pos):
-    op = draw(st.sampled_from(["ref", "ref", "ref", "export", "export", "export",
-                               "export", "copy"]))
-    src = draw(st.sampled_from([0, 0, 0, 0, 1, 1, 2, 3, 9, 9]))
+    if pos == 0:
+        op = draw(st.sampled_from(["ref", "ref", "ref", "export", "export", "copy"]))
+    else:
+        op = draw(st.sampled_from(["ref", "ref", "export", "export", "export",
+                                   "export", "copy"]))
+    src = draw(st.sampled_from([0, 0, 0, 0, 0, 1, 1, 2, 3, 9]))
     sub = draw(st.sampled_from([False, False, True]))
     if op == "ref":
         return {"op": "ref", "src": src, "sub": sub,
                 "map": draw(st.one_of(st.none(), st_map(), st_map())),
-                "restrict": draw(st.one_of(st.none(), st.none(), BITS)),
+                "restrict": draw(st.one_of(st.none(), st.none(), BITS, BITS)),
                 "own": draw(st.one_of(st.just([]), st.just([]), BITS)),
                 "loc": draw(st.sampled_from(["both", "both", "abs", "rel"])),
                 "idext": draw(st.booleans()),
@@ -150,8 +153,6 @@ def st_step(draw, pos):
                 "seed": draw(st.integers(0, 999))}
     if op == "export":
         nlev = draw(st.sampled_from([1, 1, 1, 2, 2, 3]))
-        if nlev > 1 and draw(st.booleans()):
-            src = 9
         return {"op": "export", "src": src, "sub": sub,
                 "masks": [draw(BITS) for _ in range(nlev)],
                 "filtered": draw(st.sampled_from([True, True, True, False])),
@@ -188,7 +189,7 @@ def st_spec(draw):
     origin = {"n": draw(boundary_n(10, 48)), "seed": draw(st.integers(0, 999)),
               "feats": sorted(set(feats + ["deform"])),
               "internal": draw(st.one_of(st.none(), st.none(), st_internal()))}
-    nsteps = draw(st.integers(1, 5))
+    nsteps = draw(st.sampled_from([1, 2, 2, 3, 3, 4, 5]))
     return {"chunk": draw(st.sampled_from([100, 100, None])),
             "origin": origin,
             "steps": [draw(st_step(k)) for k in range(nsteps)],
@@ -668,6 +669,11 @@ class Run:
             rec.cls("export:grandchild")
         if nchild and upstream:
             rec.cls("export:child-with-upstream-basins")
+        if any(b.feats is not None
+               and set(b.feats) < {x for x in model.names(b.target)
+                                   if model.cands(b.target, x)}
+               for b in upstream):
+            rec.cls("export:upstream-basin-restricted")
         if fastpath and any(f not in src.own and kind_of(f) == "nd"
                             and model.cands(src, f)[0][1] == "mapped"
                             for f in stored):
